@@ -651,7 +651,7 @@ def main(ck):
     ck.case(nontrivial=nt, key=text, labels=labels, sample=dict(family='F1', special=model['special'], schema=text[:1200],
                                                                table_rows=len(rows), constraints=len(cons)) if nt else None)
 
-  ck.run_hypothesis(test_f1, st.tuples(sl.valid_schema('gen'), st.integers(0, 59)), ck.budget(150, 10000), name='f1')
+  ck.run_hypothesis(test_f1, st.tuples(sl.valid_schema('gen'), st.integers(0, 59)), ck.budget(150, 2500), name='f1')
   ck.extra['tables_compiled_with_clang'] = ncompiled[0]
 
   # ---- determinism across PYTHONHASHSEED (subprocesses)
@@ -677,9 +677,16 @@ def main(ck):
   # ---- F2: edits of the real schema, metamorphic relations on read/default tables
   real_text = open(real).read()
   lines, blocks = split_real_schema(real_text)
-  base_read = parse_read_rows(run_gen(mods['generate_read_table'], real))
-  base_def_text = run_gen(mods['generate_default_table'], real)
-  base_def = parse_read_rows(base_def_text)
+  try:
+    base_read = parse_read_rows(run_gen(mods['generate_read_table'], real))
+    base_def_text = run_gen(mods['generate_default_table'], real)
+    base_def = parse_read_rows(base_def_text)
+    run_gen(mods['generate_mjcf_table'], real)
+  except (Exception, RecursionError) as e:
+    ck.violation('a generator fails on the real src/xml/mjcf.schema: %s: %s' % (type(e).__name__, str(e)[:300]),
+                 dict(schema='src/xml/mjcf.schema'), bucket='real-schema-generation')
+    shutil.rmtree(tmp, ignore_errors=True)
+    return
   S = pt.docgen('mjcf_schema')
   schema = S.parse_file(real)
   grt = mods['generate_read_table']
@@ -704,6 +711,30 @@ def main(ck):
                                         m.group(5) in ('double', 'float', 'int'))(ATTR_LINE.match(lines[c[2]]))]
   ck.extra['f2_candidates_with_scalar_default'] = len(cands_default)
 
+  # generate_schema.py has no SCHEMA_PATH: it reads <root>/src/xml/generated/mjcf_table.inc and <root>/doc/XMLreference.rst
+  # relative to its own location, so a copy of the tree's file is loaded from a scratch root whose table is generated
+  # from the (edited) schema.
+  import importlib.util
+  root = os.path.join(tmp, 'root')
+  for d in ('doc/generate', 'src/xml/generated'):
+    os.makedirs(os.path.join(root, d))
+  shutil.copy(os.path.join(vb.REPO, 'doc', 'generate', 'generate_schema.py'), os.path.join(root, 'doc', 'generate'))
+  shutil.copy(os.path.join(vb.REPO, 'doc', 'XMLreference.rst'), os.path.join(root, 'doc'))
+  spec = importlib.util.spec_from_file_location('vf_generate_schema', os.path.join(root, 'doc', 'generate', 'generate_schema.py'))
+  gs = importlib.util.module_from_spec(spec)
+  spec.loader.exec_module(gs)
+
+  def rst_for(schema_path):
+    table = run_gen(mods['generate_mjcf_table'], schema_path)
+    with open(os.path.join(root, 'src', 'xml', 'generated', 'mjcf_table.inc'), 'w') as f:
+      f.write(table)
+    return gs.generate(), parse_table(table)[0]
+  base_rst, base_rows = rst_for(real)
+  if base_rst != gs.generate():
+    ck.violation('generate_schema is not deterministic', dict(), bucket='determinism-generate_schema')
+  checked_in = os.path.join(vb.REPO, 'doc', 'XMLschema.rst')
+  ck.extra['generate_schema_matches_checked_in'] = os.path.exists(checked_in) and open(checked_in).read() == base_rst
+
   def gen_edited(new_lines, what):
     path = os.path.join(tmp, 'f2_%s.schema' % hashlib.sha256('\n'.join(new_lines).encode()).hexdigest()[:12])
     with open(path, 'w') as f:
@@ -711,11 +742,13 @@ def main(ck):
     try:
       rd = parse_read_rows(run_gen(mods['generate_read_table'], path))
       df = parse_read_rows(run_gen(mods['generate_default_table'], path))
+      last_rst[:] = list(rst_for(path)) if what == 'delete' else [None, None]
     except Exception as e:
       os.unlink(path)
       return None, None, '%s: %s' % (type(e).__name__, e)
     os.unlink(path)
     return rd, df, None
+  last_rst = [None, None]
 
   def diff_rows(a, b):
     """arrays whose row lists differ"""
@@ -754,6 +787,20 @@ def main(ck):
         if added or any(not r.startswith('{"%s",' % attr) for r in gone):
           raise V('deleting %s.%s changed default-table rows of other attributes in %s: -%r +%r' % (name, attr, k, gone[:2], added[:2]),
                   'f2-default-delete')
+      # XMLschema.rst (generate_schema): exactly the references to this attribute disappear, one per table row that lost it
+      import collections
+      rst, rows2 = last_rst
+      b_, n_ = collections.Counter(base_rst.split('\n')), collections.Counter(rst.split('\n'))
+      added_l, removed_l = list((n_ - b_).elements()), list((b_ - n_).elements())
+      refs = [l for l in removed_l if ':ref:`' in l]
+      other = [l for l in removed_l if l.strip() and ':ref:`' not in l and '.. grid-item::' not in l and '.. grid::' not in l
+               and ':gutter:' not in l]
+      tagname = schema.elements[name].xml_name()
+      lost = sum(1 for r in base_rows if r and r[0] == tagname and attr in r[2:]) - sum(
+          1 for r in rows2 if r and r[0] == tagname and attr in r[2:])
+      if added_l or other or any(not re.search(r':ref:`%s<[^>]*-%s>`' % (attr, attr), l) for l in refs) or len(refs) != lost:
+        raise V('deleting %s.%s: XMLschema.rst must lose exactly the %d references to it; removed refs %r, other removed %r, '
+                'added %r' % (name, attr, lost, refs[:3], other[:3], added_l[:3]), 'f2-rst-delete')
     elif op == 'swap':
       # swap with the next attribute line of the same element, if any
       blk = [b for b in blocks if b[1] == name and b[0] == 'element'][0]
@@ -835,7 +882,7 @@ def main(ck):
             sample=dict(family='F2', edit=op, element=name, attribute=attr, row=row))
 
   ops = st.sampled_from(['delete', 'delete', 'swap', 'required', 'nodefault', 'writing', 'default', 'default'])
-  ck.run_hypothesis(test_f2, st.tuples(st.integers(0, 10 ** 6), ops, st.integers(0, 2)), ck.budget(80, 3000), name='f2')
+  ck.run_hypothesis(test_f2, st.tuples(st.integers(0, 10 ** 6), ops, st.integers(0, 2)), ck.budget(80, 1500), name='f2')
   ck.extra['f2_candidate_attributes'] = len(cands)
   shutil.rmtree(tmp, ignore_errors=True)
 
@@ -853,5 +900,6 @@ PYTHONHASHSEED values. F2: single edits of the real mjcf.schema (delete/swap att
 defaults) must change exactly the corresponding rows of mjcf_read_table.inc / mjcf_default_table.inc.'''
 LEVEL_NOTE = '''Trusted: the abstract model and renderer of vf/gen_schemalang.py, ElementTree, clang++. generate_read_table,
 generate_default_table bind to mjspec.h and cannot run on synthetic schemas; they are judged by metamorphic relations on the
-real schema only. generate_schema.py has no SCHEMA_PATH (it reads the checked-in mjcf_table.inc and XMLreference.rst); it is
-not exercised on generated schemas (only indirectly: the table it consumes is checked).'''
+real schema only. generate_schema.py has no SCHEMA_PATH (it reads mjcf_table.inc and XMLreference.rst relative to its own
+path and needs a link target per element/attribute): a copy of the tree's file runs from a scratch root on tables generated
+from attribute-deleting edits of the real schema (metamorphic: exactly the references to the deleted attribute vanish).'''
